@@ -62,6 +62,7 @@ bookkeeping as a partial operation, the column sum saturating: fix F16) succeeds
 (`Src.noSat_normal` discharges this for trees honouring C02 below 2 GiB) -/
 def Src.NoSat (o : Opts) : Src → Prop
   | .concat cs => cs.NoSats o ∧ Chk.concatStreamC o.final (cs.streams o []).1 = some (concatStream o.final (cs.streams o []).1)
+      ∧ Chk.concatStreamS o.final (cs.streams o []).1 = concatStream o.final (cs.streams o []).1
   | .replace inner _ => inner.NoSat ⟨o.columns, false⟩
   | .cached _ inner => inner.NoSat o
   | _ => True
@@ -71,7 +72,7 @@ def SrcList.NoSats (o : Opts) : SrcList → Prop
 end
 
 mutual
-theorem Src.streamC_eq : ∀ (s : Src) (o : Opts) (σ : Store), s.NoCached → s.SizeOK → s.NoSat o → s.streamC o σ = some (s.stream o σ)
+theorem Src.streamC_eq (ovf : Bool) : ∀ (s : Src) (o : Opts) (σ : Store), s.NoCached → s.SizeOK → s.NoSat o → s.streamC ovf o σ = some (s.stream o σ)
   | .raw _ _ lossy, o, σ, _, h, _ => by
     simp only [Src.SizeOK] at h
     simp only [Src.streamC, Src.stream, Chk.streamRawC_total lossy o (by omega)]; rfl
@@ -88,18 +89,18 @@ theorem Src.streamC_eq : ∀ (s : Src) (o : Opts) (σ : Store), s.NoCached → s
     cases inner with
     | some im => rfl
     | none => simp only [Chk.streamSMC_total t map o h.1 h.2]; rfl
-  | .concat .nil, o, σ, _, _, _ => rfl
+  | .concat .nil, o, σ, _, _, _ => by cases ovf <;> rfl
   | .concat (.cons s rest), o, σ, hn, h, hs => by
     simp only [Src.NoCached, SrcList.NoCachedL] at hn
     simp only [Src.SizeOK, SrcList.SizesOK] at h
     simp only [Src.NoSat, SrcList.NoSats] at hs
     cases hr : rest with
-    | nil => simp only [Src.streamC, Src.stream]; exact Src.streamC_eq s o σ hn.1 h.1 hs.1.1
+    | nil => simp only [Src.streamC, Src.stream]; exact Src.streamC_eq ovf s o σ hn.1 h.1 hs.1.1
     | cons s2 rest2 =>
       simp only [Src.streamC, Src.stream]
-      rw [Src.streamC_eq s o σ hn.1 h.1 hs.1.1]
+      rw [Src.streamC_eq ovf s o σ hn.1 h.1 hs.1.1]
       simp only []
-      rw [SrcList.streamsC_eq (.cons s2 rest2) o _ (hr ▸ hn.2) (hr ▸ h.2) (hr ▸ hs.1.2)]
+      rw [SrcList.streamsC_eq ovf (.cons s2 rest2) o _ (hr ▸ hn.2) (hr ▸ h.2) (hr ▸ hs.1.2)]
       simp only []
       -- the children's results do not depend on the store (no CachedSource), so the hypothesis about `[]` applies
       have e1 := (Src.stream_nc s o σ hn.1).2
@@ -112,25 +113,26 @@ theorem Src.streamC_eq : ∀ (s : Src) (o : Opts) (σ : Store), s.NoCached → s
       simp only [SrcList.streams] at hsat e3 e5 ⊢
       rw [e1, e3]
       rw [e5] at hsat
-      rw [hsat]
-      rfl
+      cases ovf
+      · simp only [Bool.false_eq_true, if_false]; rw [hsat.2]; rfl
+      · simp only [if_true]; rw [hsat.1]; rfl
   | .replace inner rs, o, σ, hn, h, hs => by
     simp only [Src.NoCached] at hn
     simp only [Src.SizeOK] at h
     simp only [Src.NoSat] at hs
     simp only [Src.streamC, Src.stream]
-    rw [Src.streamC_eq inner ⟨o.columns, false⟩ σ hn h hs]
+    rw [Src.streamC_eq ovf inner ⟨o.columns, false⟩ σ hn h hs]
   | .cached _ _, _, _, hn, _, _ => by simp [Src.NoCached] at hn
-theorem SrcList.streamsC_eq : ∀ (l : SrcList) (o : Opts) (σ : Store), l.NoCachedL → l.SizesOK → l.NoSats o → l.streamsC o σ = some (l.streams o σ)
+theorem SrcList.streamsC_eq (ovf : Bool) : ∀ (l : SrcList) (o : Opts) (σ : Store), l.NoCachedL → l.SizesOK → l.NoSats o → l.streamsC ovf o σ = some (l.streams o σ)
   | .nil, o, σ, _, _, _ => rfl
   | .cons s rest, o, σ, hn, h, hs => by
     simp only [SrcList.NoCachedL] at hn
     simp only [SrcList.SizesOK] at h
     simp only [SrcList.NoSats] at hs
     simp only [SrcList.streamsC, SrcList.streams]
-    rw [Src.streamC_eq s o σ hn.1 h.1 hs.1]
+    rw [Src.streamC_eq ovf s o σ hn.1 h.1 hs.1]
     simp only []
-    rw [SrcList.streamsC_eq rest o _ hn.2 h.2 hs.2]
+    rw [SrcList.streamsC_eq ovf rest o _ hn.2 h.2 hs.2]
 end
 
 
@@ -169,9 +171,10 @@ theorem Src.noSat_normal : ∀ (s : Src) (c : Bool), s.NoCached → s.WF → s.P
     have hnodes := SrcList.nc_nodesL cs hn
     have hpos := SrcList.streams_posOK cs c [] hw hp (by simp [SrcList.idsL, hnodes]) (fun p hp => by rw [hnodes] at hp; cases hp)
     have htl := SrcList.streams_tl cs c []
-    apply Chk.concatStreamC_eq_of_posOK false _ (fun r hr => ⟨hpos r hr, htl r hr⟩)
-    rw [Chk.sumText_eq, SrcList.streams_text cs c [] hw]
-    exact hh.2
+    have hlen : 2 * Chk.sumText (cs.streams ⟨c, false⟩ []).1 + 2 < 2 ^ 32 := by
+      rw [Chk.sumText_eq, SrcList.streams_text cs c [] hw]; exact hh.2
+    exact ⟨Chk.concatStreamC_eq_of_posOK false _ (fun r hr => ⟨hpos r hr, htl r hr⟩) hlen,
+      Chk.concatStreamS_eq_of_posOK false _ (fun r hr => ⟨hpos r hr, htl r hr⟩) (by omega)⟩
   | .replace inner rs, c, hn, hw, hp, hh => by
     simp only [Src.NoCached] at hn
     simp only [Src.WF] at hw
@@ -192,9 +195,9 @@ end
 
 /-- a CachedSource answering from its cache replays the stored map through the same splitters: no trap either, whatever map an
 earlier call stored (its `mappings` string below 4 GiB) -/
-theorem Src.cached_replayC_eq (id : Nat) (inner : Src) (o : Opts) (σ : Store) (x : Option SMap) (hx : σ.get? (id, o) = some x)
+theorem Src.cached_replayC_eq (ovf : Bool) (id : Nat) (inner : Src) (o : Opts) (σ : Store) (x : Option SMap) (hx : σ.get? (id, o) = some x)
     (hlen : inner.src.length + 2 < 2 ^ 32) (hm : ∀ m, x = some m → m.mappings.length + 1 < 2 ^ 32) :
-    (Src.cached id inner).streamC o σ = some ((Src.cached id inner).stream o σ) := by
+    (Src.cached id inner).streamC ovf o σ = some ((Src.cached id inner).stream o σ) := by
   simp only [Src.streamC, Src.stream, hx]
   cases x with
   | none => simp only [Chk.streamRawC_total inner.src o (by omega)]; rfl
